@@ -113,7 +113,9 @@ def parse_dump(dump_path):
 
 
 def run_cppcheck_batch(work, name, lang, plat_args, preamble, lines, epilogue, timeout=300):
-    """-> list (per line) of root-token info or None."""
+    """-> (list (per line) of root-token info or None, list of (line index, message) for lines on which cppcheck gave up).
+    If cppcheck reports an error that makes it drop the whole translation unit (internalError / syntaxError on one
+    line), the batch is split until the offending lines are isolated, so one such line never hides the others."""
     src = os.path.join(work, name + LANG_EXT[lang])
     first = write_tu(src, preamble, lines, epilogue)
     args = ["--dump", "-q", "--language=" + lang, CPPCHECK_STD[lang]] + list(plat_args) + [src]
@@ -124,7 +126,16 @@ def run_cppcheck_batch(work, name, lang, plat_args, preamble, lines, epilogue, t
         raise vlib.InfraError("cppcheck --dump failed rc=%s on %s\n%s" % (rc, src, (out + err)[-1500:]))
     info = parse_dump(src + ".dump")
     os.unlink(src + ".dump")
-    return [info.get(first + i) for i in range(len(lines))], (out + err)
+    if not info and lines:
+        msg = (out + err).strip().splitlines()
+        msg = msg[0][-300:] if msg else "no tokens in dump"
+        if len(lines) == 1:
+            return [None], [(0, msg)]
+        h = len(lines) // 2
+        i1, e1 = run_cppcheck_batch(work, name + "a", lang, plat_args, preamble, lines[:h], epilogue, timeout)
+        i2, e2 = run_cppcheck_batch(work, name + "b", lang, plat_args, preamble, lines[h:], epilogue, timeout)
+        return i1 + i2, e1 + [(h + i, m) for i, m in e2]
+    return [info.get(first + i) for i in range(len(lines))], []
 
 
 _ERR = re.compile(r"^(.*?):(\d+):(\d+): (fatal error|error): (.*)$")
